@@ -26,6 +26,12 @@
                    Project.path / Job.project.path are lexical paths.  Where the property text itself
                    fixes the answer (SymlinkedJobDirDetermined below: the symlinked job directory named in
                    the quantifier) a disagreement is a VIOLATION; elsewhere it is only drift of this rule.
+     CAL_DeviceBlind  no answer depends on WHICH FILE SYSTEM a directory lives on: any directory of the tree
+                   (a workspace, a job directory, a plain sub-directory with content below) may physically be a
+                   symbolic link onto another device (the usual scratch set-up); by CAL_Lexical it still counts
+                   as that directory, and the upward search continues across the device boundary.  The harness
+                   re-materialises sampled trees with the node sets MountSets(t) placed on the other device
+                   (and, as a control, behind links on the same device) and expects the SAME answers.
      CAL_Cwd       a relative query is interpreted against os.getcwd(), i.e. against the PHYSICAL
                    path of the working directory (Phys(q) below).
      CAL_Regex     "id-like" is the regular expression [0-9a-f]{32}; the specification abstracts it as
@@ -366,10 +372,16 @@ CaseOf(tr, qq, base) ==
             ELSE [enabled |-> FALSE, existing |-> FALSE, res |-> Err, added |-> <<>>, after |-> Err, hist |-> FALSE, changed |-> <<>>],
    remove |-> IF DeinitEnabled(tr, qq) THEN [enabled |-> TRUE, changed |-> Changed(base, Deinit(tr, qq))]
               ELSE [enabled |-> FALSE, changed |-> <<>>]]
+\* CAL_DeviceBlind: the node sets the harness moves onto the other file system, one set at a time
+HasChild(tr, p) == \E n \in tr : Len(n.p) = Len(p) + 1 /\ IsPrefix(p, n.p)
+MountSets(tr) ==
+  [ws  |-> SetToSeq({n.p : n \in {m \in tr : m.k = "ws"}}),
+   job |-> SetToSeq({n.p : n \in {m \in tr : m.k \in {"job", "jobproj"}}}),
+   dir |-> SetToSeq({n.p : n \in {m \in tr : m.k \in {"dir", "proj"} /\ m.p # <<>> /\ HasChild(tr, m.p)}})]
 TreeRec(tr) ==
   LET qs == SetToSeq(Queries(tr))
       base == [y \in Queries(tr) |-> Answers(tr, y)]
-  IN [nodes |-> NodeSeq(tr), cases |-> [j \in 1..Len(qs) |-> CaseOf(tr, qs[j], base)]]
+  IN [nodes |-> NodeSeq(tr), mounts |-> MountSets(tr), cases |-> [j \in 1..Len(qs) |-> CaseOf(tr, qs[j], base)]]
 \* code -> spec: is every recorded observation the answer of the specification?
 ObsOK(tr, o) == /\ GetProject(tr, o.q, TRUE) = o.gp /\ GetProject(tr, o.q, FALSE) = o.gpx
                 /\ OpenProject(tr, o.q) = o.open /\ GetJob(tr, o.q) = o.job
